@@ -758,6 +758,7 @@ Definition excused (s : bstate) (a : actor) : bool :=
   | _ => false
   end.
 Definition ok03d (i : binput) (o : bobs) : bool :=
+  if bo_cut o then true else    (* cut short by the harness's step cap: nothing is known to be blocked *)
   match bo_unfinished o with
   | [] => true
   | ts => match model_run i with
